@@ -699,6 +699,21 @@ func c10R3(c *Ctx, r *Report) {
 			}
 			lowered := map[string]bool{}
 			for _, s := range cc.Body {
+				// helper(&x.F, &x.G) where the helper stores CanonicalName(*p) through every pointer it is given
+				if es, isES := s.(*ast.ExprStmt); isES {
+					if hc, isCall := ast.Unparen(es.X).(*ast.CallExpr); isCall {
+						if hd := c.decl(c.calleeName(hc)); hd != nil && hd.Body != nil && lowersThroughPointersAST(c, hd) {
+							for _, a := range hc.Args {
+								if ue, isU := ast.Unparen(a).(*ast.UnaryExpr); isU && ue.Op == token.AND {
+									if f := c.fieldOf(ue.X); f != nil {
+										lowered[f.Name()] = true
+									}
+								}
+							}
+						}
+					}
+					continue
+				}
 				as, ok := s.(*ast.AssignStmt)
 				if !ok || len(as.Lhs) != 1 || len(as.Rhs) != 1 {
 					continue
@@ -1033,4 +1048,36 @@ func compactByBytesEqual(fn *ssa.Function) *ssa.Call {
 		}
 	})
 	return out
+}
+
+// lowersThroughPointersAST: the function's only stores are `*p = CanonicalName(*p)` for a pointer p taken from its
+// parameters (directly or by ranging over a variadic parameter).
+func lowersThroughPointersAST(c *Ctx, fd *ast.FuncDecl) bool {
+	found, other := false, false
+	ast.Inspect(fd.Body, func(n ast.Node) bool {
+		as, ok := n.(*ast.AssignStmt)
+		if !ok || as.Tok != token.ASSIGN {
+			return true
+		}
+		for i, l := range as.Lhs {
+			st, isStar := ast.Unparen(l).(*ast.StarExpr)
+			if !isStar || i >= len(as.Rhs) {
+				other = true
+				continue
+			}
+			call, isCall := ast.Unparen(as.Rhs[i]).(*ast.CallExpr)
+			if !isCall || c.calleeName(call) != "CanonicalName" || len(call.Args) != 1 {
+				other = true
+				continue
+			}
+			arg, isStarArg := ast.Unparen(call.Args[0]).(*ast.StarExpr)
+			if !isStarArg || types.ExprString(arg.X) != types.ExprString(st.X) {
+				other = true
+				continue
+			}
+			found = true
+		}
+		return true
+	})
+	return found && !other
 }
